@@ -239,7 +239,7 @@ def run(R, only=None):
     if failing:
         i = sorted(failing)[0]
         hh, tab = owner[i]
-        R.correspondence_broken(f"C09 table {tab}: " + {1: "the model accepts the observed event sequence", 2: "final rows = model", 3: "rows of the acknowledged deletes = model"}[failing[i][0]],
+        R.correspondence_broken(f"C09 table {tab}: " + {1: "the model accepts the observed event sequence", 2: "final rows = model", 3: "rows of the acknowledged deletes = model", 4: "final rows = serial execution of the ghost log"}[failing[i][0]],
                                 json.dumps({"schedule": hh}))
     R.coverage.update({
         "evaluations": len(terms), "distinct_nontrivial": blocked,
